@@ -191,14 +191,18 @@ func c01Class(r *model.Rec, err error) string {
 		if !r.Vals[1].(model.OptStr).Present {
 			return "/no-subaddress"
 		}
-	case 41: // OPT
+	case 41: // OPT: the empty ZONEVERSION dominates (it makes the whole record undecodable)
+		ka := false
 		for _, o := range r.Vals[0].([]model.Opt) {
 			if o.Code == model.OptZoneVersion && len(o.Data) == 0 {
 				return "/zoneversion-empty"
 			}
 			if o.Code == model.OptKeepalive && len(o.Data) == 2 && o.Data[0] == 0 && o.Data[1] == 0 {
-				return "/keepalive-timeout-zero"
+				ka = true
 			}
+		}
+		if ka {
+			return "/keepalive-timeout-zero"
 		}
 	}
 	return ""
